@@ -10,18 +10,32 @@
 // like vh::Case::expect, but the detail text is only built when the comparison fails
 #define C20_EXPECT(c, cond, check, sig, detail) ((cond) ? ((c).count(std::string("cmp.") + (check)), true) : (c).expect(false, (check), (sig), (detail)))
 
+// the instantiation under test: coordinate type of a vertex / index type inside a part (the alternate unit sets long / unsigned)
+#ifndef C20_COORD
+#define C20_COORD int
+#endif
+#ifndef C20_INDEX
+#define C20_INDEX std::size_t
+#endif
+
 namespace c20 {
 
-using Vertex = std::vector<int>;
-using Part = std::vector<std::size_t>;
+using Vertex = std::vector<C20_COORD>;
+using Part = std::vector<C20_INDEX>;
 using Partition = std::vector<Part>;
 using PR = Gudhi::coxeter_triangulation::Permutahedral_representation<Vertex, Partition>;
 
-inline PR make_pr(const fk::Rep& r) { return PR(r.v, r.parts); }
-inline PR make_pr(const fk::Simplex& s) { return make_pr(fk::to_rep(s)); }
+inline PR make_pr(const fk::Rep& r) {
+  Partition P;
+  for (auto& p : r.parts) P.emplace_back(p.begin(), p.end());
+  return PR(Vertex(r.v.begin(), r.v.end()), P);
+}
+inline PR make_pr(const fk::Simplex& s) { return make_pr(fk::to_rep(s)); }  // to_rep lists every part in increasing order
+
+inline fk::Vertex to_fk(const Vertex& v) { return fk::Vertex(v.begin(), v.end()); }
 
 inline std::string show(const PR& s) {
-  std::string o = fk::show(s.vertex()) + "[";
+  std::string o = fk::show(to_fk(s.vertex())) + "[";
   for (std::size_t j = 0; j < s.partition().size(); ++j) {
     if (j) o += "|";
     for (std::size_t i = 0; i < s.partition()[j].size(); ++i) { if (i) o += ","; o += std::to_string(s.partition()[j][i]); }
@@ -30,9 +44,9 @@ inline std::string show(const PR& s) {
 }
 
 // vertices in the order the library enumerates them
-inline std::vector<Vertex> raw_vertices(const PR& s) {
-  std::vector<Vertex> out;
-  for (auto& v : s.vertex_range()) out.push_back(v);
+inline std::vector<fk::Vertex> raw_vertices(const PR& s) {
+  std::vector<fk::Vertex> out;
+  for (auto& v : s.vertex_range()) out.emplace_back(v.begin(), v.end());
   return out;
 }
 
@@ -52,11 +66,39 @@ inline bool wellformed(const PR& s, std::size_t d) {
   return std::find(last.begin(), last.end(), d) != last.end();
 }
 
+inline bool parts_sorted(const PR& s) {
+  for (auto& p : s.partition()) if (!std::is_sorted(p.begin(), p.end())) return false;
+  return true;
+}
+
+// a finding that does not end the case (the state has not diverged): reported once per (case, check, signature)
+inline void soft_violation(vh::Case& c, const std::string& check, const std::string& sig, const std::string& detail) {
+  static std::set<std::string> reported; static long reported_case = -1;
+  c.count("cmp." + check);
+  if (reported_case != c.k) { reported.clear(); reported_case = c.k; }
+  if (reported.insert(check + "|" + sig).second) c.violation(check, sig, detail);
+  else c.failed = true;
+}
+
+// operator== is documented as "true if and only if both vertex and the ordered set partition coincide", and the library lists the
+// elements of every part in increasing order (face_range, coface_range; the module's own tests expect the same of locate_point).
+// A LIBRARY-PRODUCED representation s of the vertex set V must therefore compare equal to the representation of V whose parts are
+// listed in increasing order - otherwise one simplex reached by two routes of the library is not == to itself.
+inline bool canonical_check(vh::Case& c, const PR& s, const fk::Simplex& V, const std::string& origin) {
+  PR canon = make_pr(V);
+  const bool eq = (s == canon), ne = (s != canon);
+  if (eq && !ne) { c.count("cmp.rep.canonical"); return true; }
+  soft_violation(c, "rep.canonical", origin + (eq != ne ? (parts_sorted(s) ? ",parts_sorted" : ",part_not_sorted") : ",operators_inconsistent"),
+                 show(s) + " (" + origin + ") is not operator== to " + show(canon) + ", the representation of the same vertex set " + fk::show(V) +
+                 " with every part in increasing order; == says " + vh::str(eq) + ", != says " + vh::str(ne));
+  return false;
+}
+
 // Vertex set of s, validated: dimension+1 distinct lattice points forming a simplex of the triangulation.  false => reported.
 inline bool vertex_checks(vh::Case& c, const PR& s, std::size_t d, const std::string& origin, fk::Simplex& V, const fk::Simplex* model) {
   const std::size_t dim = s.dimension();
   const std::string sig = origin + "," + sg(d, dim);
-  std::vector<Vertex> raw = raw_vertices(s);
+  std::vector<fk::Vertex> raw = raw_vertices(s);
   c.count("obs.vertex_range");
   if (!C20_EXPECT(c, raw.size() == dim + 1, "vertices.count", sig, show(s) + " enumerates " + vh::str(raw.size()) + " vertices, dimension()+1 = " + vh::str(dim + 1))) return false;
   for (auto& v : raw) if (!C20_EXPECT(c, v.size() == d, "vertices.ambient_dimension", sig, show(s) + " vertex of size " + vh::str(v.size()))) return false;
@@ -64,7 +106,7 @@ inline bool vertex_checks(vh::Case& c, const PR& s, std::size_t d, const std::st
   if (!C20_EXPECT(c, fk::all_distinct(V), "vertices.distinct", sig, show(s) + " -> " + fk::show(V))) return false;
   if (!C20_EXPECT(c, fk::is_simplex(V), "vertices.valid_simplex", sig, show(s) + " -> " + fk::show(V) + " is not a chain in a unit cube")) return false;
   if (model && !C20_EXPECT(c, V == *model, "vertices.match_model", sig, show(s) + " -> " + fk::show(V) + " expected " + fk::show(*model))) return false;
-  if (!C20_EXPECT(c, s.vertex() == V.front(), "rep.vertex_lexmin", sig, show(s) + ": vertex() is not the lexicographically minimal vertex " + fk::show(V.front()))) return false;
+  if (!C20_EXPECT(c, to_fk(s.vertex()) == V.front(), "rep.vertex_lexmin", sig, show(s) + ": vertex() is not the lexicographically minimal vertex " + fk::show(V.front()))) return false;
   return true;
 }
 
@@ -83,11 +125,12 @@ inline bool face_checks(vh::Case& c, const PR& s, std::size_t d, const std::stri
                   show(s) + " face_range(" + vh::str(k) + ") lists " + vh::str(faces.size()) + " faces")) return false;
     for (auto& f : faces) {
       if (!C20_EXPECT(c, f.dimension() == k, "faces.dimension", sig, show(f) + " has dimension " + vh::str(f.dimension()))) return false;
-      std::vector<Vertex> raw = raw_vertices(f);
+      std::vector<fk::Vertex> raw = raw_vertices(f);
       fk::Simplex Vf = fk::normalized(raw);
       if (!C20_EXPECT(c, raw.size() == k + 1 && fk::all_distinct(Vf), "faces.vertices_distinct", sig, show(f) + " -> " + fk::show(Vf))) return false;
       if (!C20_EXPECT(c, want.count(Vf) == 1, "faces.set_equal", sig + ",not_a_subset", show(s) + " lists face " + show(f) + " -> " + fk::show(Vf) + " which is not a vertex subset of " + fk::show(V))) return false;
       if (!C20_EXPECT(c, got.insert(Vf).second, "faces.set_equal", sig + ",duplicate", show(s) + " lists face " + fk::show(Vf) + " twice")) return false;
+      canonical_check(c, f, Vf, "from_face_range");
       c.count("obs.is_face_of");
       if (!C20_EXPECT(c, f.is_face_of(s), "faces.is_face_of", sig, show(f) + " listed by face_range of " + show(s) + " but is_face_of says false")) return false;
       if (k < dim) {
@@ -117,6 +160,10 @@ struct CofaceOpts {
 inline bool coface_checks(vh::Case& c, const PR& s, std::size_t d, const std::string& origin, const fk::Simplex& V, const CofaceOpts& o,
                           std::vector<PR>* sample_out) {
   const std::size_t dim = s.dimension();
+  // representation-level converse (operator==) is demanded of representations the library produced itself and of built ones whose
+  // parts are listed in increasing order; a built representation with shuffled parts is only compared as a vertex set
+  const bool demand_eq = origin != "built" || parts_sorted(s);
+  const std::string eq_tag = origin + (parts_sorted(s) ? "" : ",part_not_sorted");
   std::vector<std::size_t> sizes;
   for (auto& p : s.partition()) sizes.push_back(p.size());
   for (std::size_t l = dim; l <= d; ++l) {
@@ -138,13 +185,14 @@ inline bool coface_checks(vh::Case& c, const PR& s, std::size_t d, const std::st
     for (auto& x : cof) {
       if (!C20_EXPECT(c, x.dimension() == l, "cofaces.dimension", sig, show(x) + " listed by coface_range(" + vh::str(l) + ") of " + show(s) + " has dimension " + vh::str(x.dimension()))) return false;
       if (!C20_EXPECT(c, wellformed(x, d), "cofaces.wellformed", sig, show(x) + " listed as coface of " + show(s) + " is not an ordered partition of 0..d with d in the last part")) return false;
-      std::vector<Vertex> raw = raw_vertices(x);
+      std::vector<fk::Vertex> raw = raw_vertices(x);
       fk::Simplex Vx = fk::normalized(raw);
       if (!C20_EXPECT(c, raw.size() == l + 1 && fk::is_simplex(Vx), "cofaces.valid_simplex", sig, show(x) + " -> " + fk::show(Vx))) return false;
       if (!C20_EXPECT(c, fk::subset(V, Vx), "cofaces.contains", sig, "coface " + show(x) + " -> " + fk::show(Vx) + " does not contain " + fk::show(V))) return false;
       c.count("obs.is_face_of");
       if (!C20_EXPECT(c, s.is_face_of(x), "cofaces.is_face_of", sig, show(s) + ".is_face_of(" + show(x) + ") is false for a listed coface")) return false;
       if (!C20_EXPECT(c, got.insert(Vx).second, "cofaces.set_equal", sig + ",duplicate", "coface " + fk::show(Vx) + " of " + show(s) + " listed twice")) return false;
+      canonical_check(c, x, Vx, "from_coface_range");
     }
     if (got != want) {
       std::string det = show(s) + " coface_range(" + vh::str(l) + "): listed " + vh::str(got.size()) + ", oracle " + vh::str(want.size());
@@ -165,10 +213,15 @@ inline bool coface_checks(vh::Case& c, const PR& s, std::size_t d, const std::st
     // converse: s is listed among the dim-faces of each listed coface
     std::size_t stride = std::max<std::size_t>(1, cof.size() / std::max<std::size_t>(1, o.converse_sample));
     for (std::size_t i = c.rng.below(stride); i < cof.size(); i += stride) {
-      bool found = false;
-      for (auto& f : cof[i].face_range(dim)) if (fk::normalized(raw_vertices(f)) == V) found = true;
+      bool found = false, found_eq = false;
+      for (auto& f : cof[i].face_range(dim)) if (fk::normalized(raw_vertices(f)) == V) { found = true; if (f == s) found_eq = true; }
       c.count("obs.converse.face_of_coface");
       if (!C20_EXPECT(c, found, "converse.face_of_coface", sig, show(s) + " is not among face_range(" + vh::str(dim) + ") of its listed coface " + show(cof[i]))) return false;
+      if (demand_eq) {
+        c.count("obs.converse.face_of_coface_eq");
+        if (found_eq) c.count("cmp.converse.face_of_coface_eq");
+        else soft_violation(c, "converse.face_of_coface_eq", eq_tag, show(s) + " is among face_range(" + vh::str(dim) + ") of its listed coface " + show(cof[i]) + " as a vertex set, but no listed face is operator== to it");
+      }
       if (sample_out && sample_out->size() < 64 && c.rng.chance(1, 4)) sample_out->push_back(cof[i]);
     }
   }
@@ -179,6 +232,8 @@ inline bool coface_checks(vh::Case& c, const PR& s, std::size_t d, const std::st
 inline bool coface_of_face_checks(vh::Case& c, const PR& s, std::size_t d, const std::string& origin, const fk::Simplex& V,
                                   const std::vector<PR>& faces, const CofaceOpts& o) {
   const std::size_t dim = s.dimension();
+  const bool demand_eq = origin != "built" || parts_sorted(s);
+  const std::string eq_tag = origin + (parts_sorted(s) ? "" : ",part_not_sorted");
   const std::size_t stride = std::max<std::size_t>(1, faces.size() / std::max<std::size_t>(1, o.face_sample));
   for (std::size_t fi = c.rng.below(stride); fi < faces.size(); fi += stride) {
     const PR& f = faces[fi];
@@ -186,14 +241,80 @@ inline bool coface_of_face_checks(vh::Case& c, const PR& s, std::size_t d, const
     for (auto& p : f.partition()) sizes.push_back(p.size());
     if (!wellformed(f, d)) { c.count("skip.face_rep_not_wellformed"); continue; }
     if (fk::coface_count(sizes, dim) > o.cap) { c.count("skip.coface_set_too_large"); continue; }
-    bool found = false;
+    bool found = false, found_eq = false;
     std::size_t n = 0;
-    for (auto& x : f.coface_range(dim)) { if (fk::normalized(raw_vertices(x)) == V) found = true; if (++n > 4 * o.cap + 16) break; }
+    for (auto& x : f.coface_range(dim)) { if (fk::normalized(raw_vertices(x)) == V) { found = true; if (x == s) found_eq = true; } if (++n > 4 * o.cap + 16) break; }
     c.count("obs.converse.coface_of_face");
     if (!C20_EXPECT(c, found, "converse.coface_of_face", origin + "," + sg(d, dim) + ",k=" + std::to_string(f.dimension()),
                   show(s) + " is not among coface_range(" + vh::str(dim) + ") of its listed face " + show(f))) return false;
+    if (demand_eq) {
+      c.count("obs.converse.coface_of_face_eq");
+      if (found_eq) c.count("cmp.converse.coface_of_face_eq");
+      else soft_violation(c, "converse.coface_of_face_eq", eq_tag, show(s) + " is among coface_range(" + vh::str(dim) + ") of its listed face " + show(f) + " as a vertex set, but no listed coface is operator== to it");
+    }
   }
   return true;
+}
+
+// Light representation-level checks of one LIBRARY-PRODUCED representation s (used on every located simplex): s must be operator== to
+// itself as listed by the other routes of the library - the one face and the one coface of its own dimension, a listed face of
+// (a sample of) its cofacets, a listed coface of (a sample of) its facets.  Findings do not end the case.
+inline void route_eq_checks(vh::Case& c, const PR& s, std::size_t d, const std::string& origin, const fk::Simplex& V, std::uint64_t cap) {
+  const std::size_t dim = s.dimension();
+  const std::string tag = origin + (parts_sorted(s) ? "" : ",part_not_sorted");
+  std::vector<std::size_t> sizes;
+  for (auto& p : s.partition()) sizes.push_back(p.size());
+  {
+    std::size_t n = 0, eq = 0;
+    for (auto& f : s.face_range(dim)) { if (f == s) ++eq; if (++n > 4) break; }
+    c.count("obs.rep_eq.self_face");
+    if (n == 1 && eq == 1) c.count("cmp.rep.eq_self_listed");
+    else soft_violation(c, "rep.eq_self_listed", tag + ",route=face_range", show(s) + ": face_range(" + vh::str(dim) + ") lists " + vh::str(n) + " faces of its own dimension, " + vh::str(eq) + " of them operator== to it");
+  }
+  {
+    std::size_t n = 0, eq = 0;
+    for (auto& x : s.coface_range(dim)) { if (x == s) ++eq; if (++n > 4) break; }
+    c.count("obs.rep_eq.self_coface");
+    if (n == 1 && eq == 1) c.count("cmp.rep.eq_self_listed");
+    else soft_violation(c, "rep.eq_self_listed", tag + ",route=coface_range", show(s) + ": coface_range(" + vh::str(dim) + ") lists " + vh::str(n) + " cofaces of its own dimension, " + vh::str(eq) + " of them operator== to it");
+  }
+  if (dim < d) {
+    if (fk::coface_count(sizes, dim + 1) > cap) c.count("skip.coface_set_too_large");
+    else {
+      std::vector<PR> cof;
+      for (auto& x : s.cofacet_range()) { cof.push_back(x); if (cof.size() > 4 * cap + 16) break; }
+      const std::size_t stride = std::max<std::size_t>(1, cof.size() / 6);
+      for (std::size_t i = c.rng.below(stride); i < cof.size(); i += stride) {
+        bool found = false, found_eq = false;
+        for (auto& f : cof[i].face_range(dim)) if (fk::normalized(raw_vertices(f)) == V) { found = true; if (f == s) found_eq = true; }
+        c.count("obs.converse.face_of_coface");
+        c.count("obs.converse.face_of_coface_eq");
+        if (!found) soft_violation(c, "converse.face_of_coface", origin + "," + sg(d, dim) + ",l=" + std::to_string(dim + 1), show(s) + " is not among face_range(" + vh::str(dim) + ") of its listed cofacet " + show(cof[i]));
+        else if (!found_eq) soft_violation(c, "converse.face_of_coface_eq", tag, show(s) + " is among face_range(" + vh::str(dim) + ") of its listed cofacet " + show(cof[i]) + " as a vertex set, but no listed face is operator== to it");
+        else c.count("cmp.converse.face_of_coface_eq");
+      }
+    }
+  }
+  if (dim > 0) {
+    std::vector<PR> fac;
+    for (auto& f : s.facet_range()) { fac.push_back(f); if (fac.size() > dim + 8) break; }
+    const std::size_t stride = std::max<std::size_t>(1, fac.size() / 4);
+    for (std::size_t i = c.rng.below(stride); i < fac.size(); i += stride) {
+      const PR& f = fac[i];
+      if (!wellformed(f, d)) { c.count("skip.face_rep_not_wellformed"); continue; }
+      std::vector<std::size_t> fs;
+      for (auto& p : f.partition()) fs.push_back(p.size());
+      if (fk::coface_count(fs, dim) > cap) { c.count("skip.coface_set_too_large"); continue; }
+      bool found = false, found_eq = false;
+      std::size_t n = 0;
+      for (auto& x : f.coface_range(dim)) { if (fk::normalized(raw_vertices(x)) == V) { found = true; if (x == s) found_eq = true; } if (++n > 4 * cap + 16) break; }
+      c.count("obs.converse.coface_of_face");
+      c.count("obs.converse.coface_of_face_eq");
+      if (!found) soft_violation(c, "converse.coface_of_face", origin + "," + sg(d, dim) + ",k=" + std::to_string(dim - 1), show(s) + " is not among cofacet_range of its listed facet " + show(f));
+      else if (!found_eq) soft_violation(c, "converse.coface_of_face_eq", tag, show(s) + " is among the cofacets of its listed facet " + show(f) + " as a vertex set, but no listed cofacet is operator== to it");
+      else c.count("cmp.converse.coface_of_face_eq");
+    }
+  }
 }
 
 // is_face_of(a, b) must be the subset relation of the vertex sets
